@@ -54,8 +54,6 @@ Definition walk_func_decl (enter : node -> bool) (f : file) : res (list node) :=
   R (filter (fun d => is_tag TFuncDecl d && enter d) (decls f)).
 
 (* ---------- typeExprWalker ---------- *)
-Definition other_kind (n : node) : N :=
-  match ntag n with TOther _ => N.div (na n) 1000 | _ => 0 end.
 Definition is_struct_type (n : node) : bool := N.eqb (other_kind n) 2.
 Definition is_iface_type (n : node) : bool := N.eqb (other_kind n) 3.
 Definition is_map_type (n : node) : bool := N.eqb (other_kind n) 4.
